@@ -20,14 +20,28 @@ from typing import Any
 
 SCALE = 1.0   # real-time settle factor; raised on retry so that a loaded machine cannot fake a difference
 
-SCENARIOS = ("echo", "eof", "rst", "raise-in-data_received", "write-after-close", "write-to-closed-peer", "local-close", "eof-then-data-ignored")
+SCENARIOS = ("echo", "eof", "rst", "raise-in-data_received", "write-after-close", "write-to-closed-peer", "local-close", "eof-then-data-ignored",
+             "shutdown-after-rst", "shutdown-after-eof", "shutdown-twice-alive")
 
 
 class Rec(asyncio.Protocol):
-    def __init__(self, log: list[Any], raise_on: bytes | None = None) -> None:
+    def __init__(self, log: list[Any], raise_on: bytes | None = None, shutdown_on: str | None = None) -> None:
         self.log = log
         self.raise_on = raise_on
+        self.shutdown_on = shutdown_on
         self.transport: Any = None
+
+    def _shutdown(self) -> None:
+        # socket.shutdown() on the transport's socket, as library code might do before closing: the errno the OS answers with is recorded
+        sock = self.transport.get_extra_info("socket")
+        for _ in range(2):
+            try:
+                sock.shutdown(socket.SHUT_RDWR)
+                self.log.append(("shutdown", "ok"))
+            except OSError as e:
+                import errno as _errno
+
+                self.log.append(("shutdown", _errno.errorcode.get(e.errno, e.errno)))
 
     def connection_made(self, transport: Any) -> None:
         self.transport = transport
@@ -40,9 +54,13 @@ class Rec(asyncio.Protocol):
 
     def eof_received(self) -> None:
         self.log.append(("eof",))
+        if self.shutdown_on == "eof":
+            self._shutdown()
 
     def connection_lost(self, exc: Any) -> None:
         self.log.append(("lost", type(exc).__name__ if exc else None))
+        if self.shutdown_on == "lost":
+            self._shutdown()
 
 
 # ------------------------------------------------------------------------------------------------ real world
@@ -62,7 +80,8 @@ async def _real(name: str, log: list[Any]) -> None:
     peer, _ = await loop.sock_accept(srv)
     srv.close()
     await asyncio.sleep(0.05)
-    proto = Rec(log, raise_on=b"BOOM" if name == "raise-in-data_received" else None)
+    proto = Rec(log, raise_on=b"BOOM" if name == "raise-in-data_received" else None,
+                shutdown_on={"shutdown-after-rst": "lost", "shutdown-after-eof": "eof"}.get(name))
     tr, _ = await loop.create_connection(lambda: proto, sock=c)
 
     async def settle() -> None:
@@ -87,11 +106,19 @@ async def _real(name: str, log: list[Any]) -> None:
         peer.send(b"abc")
         peer.shutdown(socket.SHUT_WR)
         await settle()
-    elif name == "rst":
+    elif name in ("rst", "shutdown-after-rst"):
         peer.send(b"abc")
         await settle()
         peer.setsockopt(socket.SOL_SOCKET, socket.SO_LINGER, struct.pack("ii", 1, 0))
         peer.close()
+        await settle()
+    elif name == "shutdown-after-eof":
+        peer.send(b"abc")
+        await settle()
+        peer.shutdown(socket.SHUT_WR)
+        await settle()
+    elif name == "shutdown-twice-alive":
+        proto._shutdown()  # noqa: SLF001
         await settle()
     elif name == "raise-in-data_received":
         peer.send(b"ok")
@@ -160,7 +187,8 @@ def run_sim(name: str) -> list[Any]:
         sock.connect_state = "done"
         sock.address = ("10.9.9.9", 1)
         sock.endpoint = peer
-        proto = Rec(log, raise_on=b"BOOM" if name == "raise-in-data_received" else None)
+        proto = Rec(log, raise_on=b"BOOM" if name == "raise-in-data_received" else None,
+                shutdown_on={"shutdown-after-rst": "lost", "shutdown-after-eof": "eof"}.get(name))
         holder: dict[str, Any] = {}
 
         async def mk() -> None:
@@ -194,10 +222,18 @@ def run_sim(name: str) -> list[Any]:
             peer_send(b"abc")
             peer_send(b"")
             settle()
-        elif name == "rst":
+        elif name in ("rst", "shutdown-after-rst"):
             peer_send(b"abc")
             settle()
             peer_send(ConnectionResetError(104, "Connection reset by peer"))
+            settle()
+        elif name == "shutdown-after-eof":
+            peer_send(b"abc")
+            settle()
+            peer_send(b"")
+            settle()
+        elif name == "shutdown-twice-alive":
+            proto._shutdown()  # noqa: SLF001
             settle()
         elif name == "raise-in-data_received":
             peer_send(b"ok")
